@@ -93,7 +93,9 @@ unsigned int get_rex_prefix(struct instr *all_instr, struct operand *m,
   if (m->index & REG_RB)
     rex_prefix |= rex_x;
   // register r or m is 64 bits wide
-  if ((rm & reg64) || (r->reg & reg64))
+  // (or the memory operand is declared qword: its address registers may be
+  // 32-bit or absent)
+  if ((rm & reg64) || (r->reg & reg64) || all_instr->keyword.is_qword)
     rex_prefix |= rex_w;
   if (rex_prefix & REX_W_RXB)
     return rex_ | rex_prefix;
